@@ -348,7 +348,8 @@ func (c *c16Case) knownReasons() []string {
 	if f.nilIfaceElem {
 		out = append(out, "C16-nil-interface-element")
 	}
-	if f.bytes && c.route == "decompose" && c.spec.BytesAs != ojg.BytesAsArray {
+	if f.bytes && (c.route == "marshal" || c.spec.BytesAs != ojg.BytesAsArray) {
+		// (the Marshal route writes numbers as long as C15-bytes-as-slice stands, and then round-trips)
 		out = append(out, "C16-bytes-text")
 	}
 	return out
@@ -536,18 +537,24 @@ func checkC16(d *lib.Driver, c *c16Case) error {
 			rep.Count("history.same", 1)
 		}
 	}
-	// III. the model of the code as it is gives the implementation's outcome
+	// III. the model gives the implementation's outcome: the model of the code as it is (b), or — once
+	// the registry repair is applied to the repository — the model with the repair (-)
 	if d != nil {
 		for i, got := range []string{exact0, exactH} {
-			if model[i] == "outside" {
+			if model[i] == "outside" || model[i+2] == "outside" {
 				rep.Count("model.outside", 1)
 				continue
 			}
-			if model[i] != got {
+			switch got {
+			case model[i]:
+				rep.Count("model.matches_current", 1)
+			case model[i+2]:
+				rep.Count("model.matches_repaired", 1)
+			default:
 				rp := c.replay()
-				rp["model"], rp["implementation"], rp["with_history"] = model[i], got, i == 1
+				rp["model"], rp["model_repaired"], rp["implementation"], rp["with_history"] = model[i], model[i+2], got, i == 1
 				rep.Add(lib.Finding{Kind: "disagreement", Class: "model:recompose:" + c.route, Replay: rp,
-					What: fmt.Sprintf("model %s, implementation %s", model[i], got)})
+					What: fmt.Sprintf("model %s (repaired: %s), implementation %s", model[i], model[i+2], got)})
 			}
 		}
 	}
